@@ -137,25 +137,28 @@ Mutants == UNION {UNION {{[op |-> op, req |-> [desc |-> m.desc, inputs |-> m.inp
 ---------------------------------------------------------------------------
 (* universe part: one behaviour of the Prepare machine per mutant *)
 MInit == mut \in Mutants /\ PrepareInit(mut.req) /\ tid = 0 /\ l = 0
-MNext == PrepareNext /\ UNCHANGED <<mut, tid, l>>
+MNext == PrepareNext /\ l' = l + 1 /\ UNCHANGED <<mut, tid>>          \* l counts the steps
 MSpec == MInit /\ [][MNext]_allvars
 
-AtStart   == pc = "Construct"
-AtSecond  == pc = "CheckExecutorParallel" \/ (pc = "rejected" /\ calls = 0 /\ disk = PrevDisk)   \* evaluated by the workers
+AtSecond  == l = 1                                   \* the laws are evaluated once per mutant, by the worker threads
 BaseReq   == [desc |-> mut.req.prev.desc, inputs |-> mut.req.prev.inputs, cfg |-> Cfg("file_array", mut.req.cfg.cleanup, TRUE),
               prev |-> mut.req.prev]
-LawBaseValid  == AtSecond => Valid(BaseReq)
-LawConj       == AtSecond => (Valid(mut.req) <=> ValidConj(mut.req))
-LawOpClause   == AtSecond => FirstViolated(mut.req) \in OpClauses(mut.op) \cup {"none"}
-LawMapDenote  == AtSecond => LawAgreesWithMapDenote(mut.req)
+LawBaseValid      == Valid(BaseReq)                                        \* mutation starts from valid requests
+LawConj(v)        == (v = "none") <=> ValidConj(mut.req)                   \* Valid is the conjunction of the clauses
+LawOpClause(v)    == v \in OpClauses(mut.op) \cup {"none"}                 \* an operator breaks only its own clauses
+LawMapDenote      == LawAgreesWithMapDenote(mut.req)                       \* the shape clauses are C01's ValidMapRequest
+Laws == AtSecond => LET v == FirstViolated(mut.req) IN LawBaseValid /\ LawConj(v) /\ LawOpClause(v) /\ LawMapDenote
 InvRejectIsPure       == RejectIsPure
+StorageMutantsOnly    == mut.op = "unknown_storage"      \* CONSTRAINT of the runs that look for the ordering defect
 InvNoCodeBeforeAccept == NoCodeBeforeAccept
 InvOnlyReject         == OnlyReject
 InvValidAccepted      == ValidAccepted
-(* a mutant that is not valid ends rejected, a valid one returned (end states are the only states without successor) *)
-InvEnds == (pc = "rejected" => (~Valid(req) \/ ~Continues(req))) /\ (pc = "returned" => Valid(req))
+(* end states: a request that is not valid ends rejected, a valid one returned unless it is a different run continuing  *)
+(* the folder                                                                                                          *)
+InvEnds == /\ pc = "rejected" => (~Valid(req) \/ ~Continues(req))
+           /\ pc = "returned" => Valid(req)
 Stage(v) == IF v \in ConstructionClauses THEN "construct" ELSE IF v = "none" THEN "none" ELSE "map"
-Emit == ~AtStart \/
+Emit == ~AtSecond \/
         LET v == FirstViolated(mut.req) IN
         IF v = "none" THEN PrintT(<<"STAYED_VALID", ToJson([op |-> mut.op])>>)
         ELSE PrintT(<<"CASE", ToJson([op |-> mut.op, req |-> mut.req, violated |-> v, stage |-> Stage(v)])>>)
